@@ -5,7 +5,7 @@ From Coq Require Import ZArith List Lia Bool Reals Lra.
 From PR Require Import Base.Num Base.RNum Base.ZX Base.Slice Model.Partition Model.Blockwise Model.BlockwiseSpec
      Model.BlockwiseValid Model.BlockwiseBF Gen.GenC05
      Proofs.C05_assemble Proofs.C05_pipeline Proofs.C05_mask Proofs.C05_dims Proofs.C05_flatten
-     Proofs.C05_gen Proofs.C05_cache Proofs.C05_bruteforce.
+     Proofs.C05_gen Proofs.C05_cache Proofs.C05_bruteforce Proofs.C05_dimsok.
 Import ListNotations.
 Open Scope Z_scope.
 
@@ -290,3 +290,20 @@ Theorem C05_legacy_history : forall (Arg Info : Type) (compute : Arg -> Info) h 
   last (run_legacy compute st (h ++ [GetInfo a; Sample])) None = Some (compute a).
 Proof. intros Arg Info compute. exact (legacy_history compute). Qed.
 Print Assumptions C05_legacy_history.
+
+(* ---------------------------------------------------------------------------------------------------------------
+   dimension ORDER: data is accepted (no ValueError from _get_valid_dims / _verify_data_geo_dims) only when the
+   geometry's dims occur in the data consecutively and in the geometry's own order, all other dims being non-geo --
+   exactly the hypotheses of C05_dims_dtype_preserved; data stored with the geo dims swapped, renamed or split by
+   another dim is refused (and the flattening of C05_flatten_index is never applied to it) *)
+Theorem C05_accepted_dims_in_geometry_order : forall dims geo, geo_dims_ok dims geo = true ->
+  exists lead trail, dims = lead ++ geo ++ trail /\
+    Forall (fun d => memb d geo = false) lead /\ Forall (fun d => memb d geo = false) trail.
+Proof. exact geo_dims_ok_spec. Qed.
+Print Assumptions C05_accepted_dims_in_geometry_order.
+Example C05_dim_order_ex :       (* names: 0 = y, 1 = x, 2 = bands *)
+  geo_dims_ok [2; 0; 1] [0; 1] = true /\ geo_dims_ok [0; 1; 2] [0; 1] = true
+  /\ geo_dims_ok [1; 0] [0; 1] = false /\ geo_dims_ok [2; 1; 0] [0; 1] = false      (* swapped *)
+  /\ geo_dims_ok [0; 2; 1] [0; 1] = false                                           (* not adjacent *)
+  /\ geo_dims_ok [3; 4] [0; 1] = false.                                             (* other names *)
+Proof. repeat split; reflexivity. Qed.
